@@ -157,7 +157,7 @@ def render_ctx(ctx, sub, root):
     elif ctx == "pl":
         # every mutator is a stage; the last one is the pipeline's last command (the parent's own under lastpipe)
         # (only `echo` writes anything; `{ exec N>…; } >f` would make brush keep f as the shell's stdout)
-        last = ("{ %s; } >$SUBF" if sub[-1].startswith("ec:") else "{ %s; }") % ms[-1] if ms else "true"
+        last = ("{ %s; } >$SUBF" if sub[-1].startswith(("ec:", "xc:")) else "{ %s; }") % ms[-1] if ms else "true"
         s = " | ".join(ms[:-1] + [last])
     else:
         raise ValueError(ctx)
@@ -788,6 +788,7 @@ E2E_MUTS = [
     "complete -r e2ecmd", "complete -W x newcmd", "hash -r", "enable -n test",
     "exit 3", "exit", "false", "return 2>/dev/null", "break 2>/dev/null", "echo out", "echo err >&2", ":",
     "continue 2>/dev/null", "return 4", "{ set -e; false; }",
+    "exec /bin/true", "exec /bin/echo x", "exec nosuchcmd_c12", "command exec /bin/echo x",
 ]
 E2E_WORLD = ("umask", "ulimit")
 E2E_CTXS = {
@@ -796,6 +797,8 @@ E2E_CTXS = {
     "backq": ": ` %s `",
     "pipe": "{ %s; } | cat",
     "stage": "%s | cat",                 # only for a single mutator
+    "stage_mid": "true | %s | cat",      # only for a single mutator
+    "stage_last": "true | %s",           # only for a single mutator; the parent's own under lastpipe
     "bg": "{ %s; } & wait",
     "procsub": "cat <( %s )",
     "procsub_out": ": > >( %s ); sleep 0.2",
@@ -817,10 +820,34 @@ DROP_VARS = re.compile(r"^declare -[-\w]+ (_|PIPESTATUS|BASH_CMDS|BASH_COMMAND|L
                        r"BASHPID|BASH_LINENO|BASH_ARGC|BASH_ARGV|BASH_SOURCE|FUNCNAME|COPROC|COPROC_PID|BASH_SUBSHELL|PPID)\b")
 
 
+E2E_FRAMES = {                 # where the parent is when it meets the subshell construct
+    "top": "%s",
+    "func": "WF() { %s; }; WF; unset -f WF",
+    "brace": "{ %s; }",
+    "loop": "for e2ei in 1 2; do %s; done",
+    "eval": "eval %s",
+    "sub": "( :; %s )",        # (not `( ( … ) )`: brush reads that as `(( … ))`, finding C02-5)
+}
+E2E_EXEC = ["exec /bin/true", "exec /bin/echo x", "exec /bin/false", "exec nosuchcmd_c12", "exec -a name /bin/true",
+            "command exec /bin/echo x", "builtin exec /bin/echo x"]
+E2E_EXEC_CTXS = ["stage", "stage_mid", "stage_last", "paren", "cmdsub", "backq", "pipe", "procsub", "bg", "bg_spec", "coproc",
+                 "fn_paren"]
+
+
 def e2e_script(tdir, ctxname, muts, conc=None):
     body = "; ".join(muts)
-    cmd = E2E_CTXS[ctxname] % body
-    s = E2E_SETUP + 'DUMP "$@" >%s/before 2>&1\n' % tdir
+    setup = E2E_SETUP
+    if ctxname.startswith("X/"):      # X/<frame>/<lp|nolp>/<context>
+        _, frame, lp, base = ctxname.split("/")
+        cmd = E2E_CTXS[base] % body
+        if frame == "eval":
+            cmd = "'" + cmd.replace("'", "'\\''") + "'"
+        cmd = E2E_FRAMES[frame] % cmd
+        if lp == "lp":
+            setup += "shopt -s lastpipe\n"
+    else:
+        cmd = E2E_CTXS[ctxname] % body
+    s = setup + 'DUMP "$@" >%s/before 2>&1\n' % tdir
     if conc is None:
         s += cmd + " >/dev/null 2>&1\n"
     elif conc == "solo":       # reference run: the parent's own activity only
@@ -947,7 +974,7 @@ def end_to_end(ctx, root):
     rng = ctx.rng
     jobs = []
     # every mutator alone in the three most used contexts + as a pipeline stage of its own; rotating through the rest
-    rest = [c for c in E2E_CTXS if c not in ("paren", "stage")]
+    rest = [c for c in E2E_CTXS if c not in ("paren", "stage", "stage_mid", "stage_last")]
     for i, m in enumerate(E2E_MUTS):
         jobs.append((root, "brush", "paren", [m], "plain"))
         jobs.append((root, "brush", "stage", [m], "plain"))
@@ -955,16 +982,30 @@ def end_to_end(ctx, root):
         if not ctx.quick:
             for c in rest:
                 jobs.append((root, "brush", c, [m], "plain"))
+    # `exec <command>` in every subshell-like context, the parent at depth 0 or nested, lastpipe off and on:
+    # the parent must reach the end of the script (under lastpipe the last stage is the parent itself: left out)
+    k = 0
+    for frame in E2E_FRAMES:
+        for lp in ("nolp", "lp"):
+            for base in E2E_EXEC_CTXS:
+                if lp == "lp" and base == "stage_last":
+                    continue
+                for m in E2E_EXEC:
+                    k += 1
+                    if ctx.quick and k % 4 != ctx.seed % 4 and not (frame == "top" and m == "exec /bin/echo x"):
+                        continue
+                    jobs.append((root, "brush", "X/%s/%s/%s" % (frame, lp, base), [m], "plain"))
     # control flow in a background job x every job-spec synchronisation / frame
     for c in ("bg", "bg_spec", "bg_spec2", "bg_loop_spec", "bg_func_spec", "bg_errexit_spec"):
         for m in E2E_CF:
             jobs.append((root, "brush", c, [m], "plain"))
             jobs.append((root, "brush", c, ["gs=job", m, "gs=after"], "plain"))
     for _ in range(ctx.size(200, 2500)):
-        c = rng.choice([k for k in E2E_CTXS if k != "stage"])
+        c = rng.choice([k for k in E2E_CTXS if not k.startswith("stage")])
         ms = [rng.choice(E2E_MUTS) for _ in range(rng.randint(2, 7))]
         jobs.append((root, "brush", c, ms, "plain"))
     safe_par = [m for m in E2E_MUTS if not m.startswith(("exit", "exec >", "exec 2>", "exec <", "set -e", "{ set -e", "return", "break", "continue",
+                                                          "exec /", "exec -a", "exec nosuch", "command exec", "builtin exec",
                                                           "set -x", "trap : ERR", "echo", "false", "PATH="))]
     for _ in range(ctx.size(60, 600)):
         sub = [rng.choice(E2E_MUTS) for _ in range(rng.randint(1, 5))]
@@ -1029,7 +1070,7 @@ def end_to_end(ctx, root):
                 nviol += 1
                 ctx.violation("the parent shell did not reach the end of the script after a subshell (%s)" % st, case)
             continue
-        if c == "coproc":
+        if c == "coproc" or c.endswith("/coproc"):
             # the parent's own ends of the coprocess pipes (brush keeps them after the coprocess has ended)
             a = [l for l in a if not (re.fullmatch(r"\d+ -> pipe:\[n\]", l) and l not in b)]
         if b != a:
@@ -1063,7 +1104,7 @@ def replay(ctx, rp):
             print("context:\n  " + render_ctx(c, sub, root).strip())
             _, b, err = lib.run_vh(BIN, [vh_request(root, c, par, sub)])
             m = lib.run_drv([drv_request(root, c, par, sub)])
-            bc, changes = canon_brush(b[0] if b else "<none>", c)
+            bc, changes = canon_brush(b[0] if b and b[0].startswith(("st=", "TIMEOUT")) else "DIED", c)
             mc = canon_model(m[0], root)
             if bc is not None and mc is not None:
                 changes, _ = own_filter(c, par, sub, changes, bc, mc)
